@@ -318,8 +318,46 @@ static void dump_prog (const char *tag, program_t * p)
   }
   /* line information: one block <size><offset><file info><line info> */
   if (p->file_info)
-    vh_out ("D %s li %d %d %016llx", tag, p->file_info[0], p->file_info[1],
-            (unsigned long long) fnv ((unsigned char *) p->file_info, p->file_info[0]));
+    {
+      int end = p->file_info[1];
+      vh_out ("D %s li %d %d %016llx", tag, p->file_info[0], p->file_info[1],
+              (unsigned long long) fnv ((unsigned char *) p->file_info, p->file_info[0]));
+      /* decoded file info: <lines>:<file name> runs; line info separately */
+      o = 0;
+      buf[0] = 0;
+      for (int i = 2; i + 1 < end && o + 300 < sizeof buf; i += 2)
+        {
+          int id = p->file_info[i + 1];
+          o += snprintf (buf + o, sizeof buf - o, "%s%d:%s", i > 2 ? "," : "", p->file_info[i],
+                         (id > 0 && id <= p->num_strings) ? p->strings[id - 1] : "?");
+        }
+      vh_out ("D %s fi %s", tag, o ? buf : "-");
+      if (p->line_info)
+        vh_out ("D %s ln %d %016llx", tag, (int) (p->file_info[0] - end * 2),
+                (unsigned long long) fnv (p->line_info, p->file_info[0] - end * 2));
+      /* what the error reporter would say for the first instruction of every function */
+      {
+        /* in name order: the table order depends on addresses */
+        int *ord = (int *) calloc (n + 1, sizeof (int));
+        for (int i = 0; i < n; i++)
+          ord[i] = i;
+        for (int i = 1; i < n; i++)
+          for (int j = i; j > 0 && strcmp (p->function_table[ord[j - 1]].name, p->function_table[ord[j]].name) > 0; j--)
+            {
+              int t = ord[j];
+              ord[j] = ord[j - 1];
+              ord[j - 1] = t;
+            }
+        for (int k = 0; k < n; k++)
+          {
+            int i = ord[k];
+            if (p->function_table[i].address < p->program_size)
+              vh_out ("D %s lf %s %s", tag, p->function_table[i].name,
+                      get_line_number (p->program + p->function_table[i].address, p));
+          }
+        free (ord);
+      }
+    }
   else
     vh_out ("D %s li none", tag);
   /* code: string switch tables dumped entry by entry, then masked out of the hash */
